@@ -105,6 +105,14 @@ let () =
                      | [_; _; _; mb; eq] -> Some (mb, eq)
                      | _ -> Some ("?", "0"))
                   else None in
+                (* independent reading of doc/config.md: an ordinary address is accepted under the documented name *)
+                let documented = ordinary_name (match mname with "local" -> Local | "full" -> Full | _ -> Domain) a in
+                let doc_fail =
+                  match documented, accepted with
+                  | Some n, Some (mb, _) when mb <> field_of_str n -> "ordinary-address-name-differs-from-documented:" ^ mname
+                  | Some _, None -> "ordinary-address-refused:" ^ mname
+                  | _ -> "" in
+                if doc_fail <> "" then doc_fail else
                 match accepted with
                 | Some (mb, eq) ->
                     if mb = "-" then "name-empty:" ^ mname
